@@ -15,7 +15,7 @@ import packaging.version as pv
 from .. import fakevcs, pool, world
 from .. import bumpgraph as bg
 from ..ref import model as M
-from ..stats import Stats
+from ..stats import Stats, h64
 
 ID = "C09"
 LEVEL = "model_checking"
@@ -158,7 +158,9 @@ def project(name, cfgv, scope):
     return {"bumpver.toml": cfg.encode()}
 
 
-def run_state(st, name, pos, scope, ignore, placement, tags, order=None, kind="git"):
+def run_state(st, name, pos, scope, ignore, placement, tags, order=None, kind="git", cfg_scope=None):
+    """cfg_scope: when given, the CONFIG names that scope and `update` gets `--tag-scope <scope>` on the command line (which must win);
+    `show` has no such option and must follow the config's scope."""
     P = PATTERNS[name]
     cfgv = P["configs"][pos]
     served_all = [t for t, pl in zip(tags, placement) if pl != "absent"]
@@ -166,27 +168,31 @@ def run_state(st, name, pos, scope, ignore, placement, tags, order=None, kind="g
     if order is not None:
         served_all = [served_all[i] for i in order if i < len(served_all)]
     world.clear_dir(".")
-    world.write_tree(project(name, cfgv, scope))
+    world.write_tree(project(name, cfgv, cfg_scope or scope))
     os.mkdir("." + kind)
-    want = expected_start(name, cfgv, scope, ignore, placement, tags)
+    want_update = expected_start(name, cfgv, scope, ignore, placement, tags)
+    want_show = expected_start(name, cfgv, cfg_scope or scope, ignore, placement, tags)
     case = {"pattern": name, "config": cfgv, "scope": scope, "ignore_vcs_tag": ignore, "tags": {t: pl for t, pl in zip(tags, placement) if pl != "absent"},
             "order": list(order) if order else None}
+    if cfg_scope:
+        case["config_scope"] = cfg_scope
     flags = ["--no-fetch"] + (["--ignore-vcs-tag"] if ignore else [])
     results = []
     for cmd in ("show", "update"):
+        want = want_show if cmd == "show" else want_update
         fake = fakevcs.install(fakevcs.FakeVCS(kind, tags_all=served_all, tags_merged=served_head, status=[]))
         try:
             if cmd == "show":
                 o = world.cli("show", *flags)
             else:
-                o = world.cli("update", "--dry", *flags, *P["bump"])
+                o = world.cli("update", "--dry", *flags, *(["--tag-scope", scope] if cfg_scope else []), *P["bump"])
         finally:
             fakevcs.uninstall()
         st.evaluations += 1
         st.transitions += 1
         results.append(o)
         kinds = sorted({classify_tag(name, t) for t in served_all})
-        ctx = f"{name}:{scope}" + (":ignore" if ignore else "") + (":hg" if kind == "hg" else "")
+        ctx = f"{name}:{scope}" + (":ignore" if ignore else "") + (":hg" if kind == "hg" else "") + (":scope-on-command-line" if cfg_scope else "")
         if o.crashed:
             st.outcomes["violation"] += 1
             culprit = _culprit(name, served_all)
@@ -220,8 +226,9 @@ def run_state(st, name, pos, scope, ignore, placement, tags, order=None, kind="g
                     st.outcomes["update-ok"] += 1
             else:
                 st.outcomes["update-refused"] += 1
+    want = want_update
     # an explicit --set-version that names an existing tag (on any branch) must be refused
-    if not ignore and order is None:
+    if not ignore and order is None and not cfg_scope:
         cands = [t for t in served_all if classify_tag(name, t) == "match" and all(bg.greater(t, w) for w in want)][:2]
         for t in cands:
             fake = fakevcs.install(fakevcs.FakeVCS(kind, tags_all=served_all, tags_merged=served_head, status=[]))
@@ -240,9 +247,9 @@ def run_state(st, name, pos, scope, ignore, placement, tags, order=None, kind="g
                 st.validated += 1
                 st.outcomes["set-version-of-existing-tag-refused"] += 1
     st.observe((case, [(o.exit, o.crashed, o.stdout, o.old_version, o.new_version) for o in results]))
-    st.state(name, pos, scope, ignore, placement, order)
+    st.state(name, pos, scope, ignore, placement, order, cfg_scope)
     if served_all:
-        st.nontriv(name, pos, scope, ignore, placement, order)
+        st.nontriv(name, pos, scope, ignore, placement, order, cfg_scope)
     return results
 
 
@@ -279,6 +286,10 @@ def run_chunk(chunk):
                     if ignore and placement.count("absent") < n - 2:
                         continue  # with --ignore-vcs-tag the start version is the config value: a thin slice suffices
                     run_state(st, name, pos, scope, ignore, placement, tags)
+                    if not ignore:
+                        # the scope given on the command line while the config names another one (both other ones over the chunk)
+                        others = [x for x in SCOPES if x != scope]
+                        run_state(st, name, pos, scope, ignore, placement, tags, cfg_scope=others[h64(repr(placement)) % 2])
         if first == ("head", "elsewhere") and pos == "between":
             st.sample({"pattern": PATTERNS[name]["pattern"], "tags": tags, "placement_example": list(first + ("absent",) * (n - 2)),
                        "tag_kinds": {t: classify_tag(name, t) for t in tags}})
@@ -398,5 +409,5 @@ def replay(case, st):
     tags = list(case["tags"])
     placement = tuple(case["tags"][t] for t in tags)
     pos = [k for k, v in PATTERNS[name]["configs"].items() if v == case["config"]][0]
-    run_state(st, name, pos, case["scope"], case["ignore_vcs_tag"], placement, tags, order=case.get("order"))
+    run_state(st, name, pos, case["scope"], case["ignore_vcs_tag"], placement, tags, order=case.get("order"), cfg_scope=case.get("config_scope"))
     os.chdir("/")
